@@ -1,5 +1,7 @@
-import ImathVerif.Lemmas.C09FrameLemmas
+import ImathVerif.Spec.TransformSpec
+import ImathVerif.Gen.C09Quat
 import ImathVerif.Gen.C05
+import Mathlib.Tactic.Ring
 /-!
 Helper lemmas for C09: the extracted `Quat::setRotation(from, to)` tree (89 paths) equals the documented case analysis
 (slow to elaborate, hence its own module).
